@@ -329,7 +329,18 @@ func execMigrateOp(op, srcKind, dstKind string) string {
 		if prog != nil {
 			pch = prog
 		}
+		// callers typically carve both extra-key lists out of one list of application keys: the two slices then share a
+		// backing array (and the first has spare capacity reaching into the second). CopyStable must not write to them.
+		xkOrig, xiOrig := append([][]byte(nil), xk...), append([][]byte(nil), xi...)
+		if len(ws[1])%2 == 0 {
+			all := append(append(make([][]byte, 0, len(xi)+len(xk)+4), xi...), xk...)
+			xi, xk = all[:len(xi)], all[len(xi):]
+		} else {
+			all := append(append(make([][]byte, 0, len(xi)+len(xk)+4), xk...), xi...)
+			xk, xi = all[:len(xk)], all[len(xk):]
+		}
 		err = migrate.CopyStable(ctx, dst.stable, src.stable, xk, xi, pch)
+		xk, xi = xkOrig, xiOrig
 		// read back every key the call may have written
 		var parts []string
 		seen := map[string]bool{}
